@@ -191,7 +191,10 @@ def coq_check(c, r):
     if k == "c09.line":
         if r.get("err"):
             return None
-        return "check_line %s %s %s %s" % (coq(c["xs"]), coq(c["ys"]), coq(r["m"]), coq(r["b"]))
+        two = lambda v: coq(None if v is None else Some((v[0], v[1])))
+        x0, y0, x1, y1 = c["xs"][0], c["ys"][0], c["xs"][-1], c["ys"][-1]
+        return "both (check_line %s %s %s %s) (both (check_two_points %s %s %s %s %s) (check_two_points %s %s %s %s %s))" % (
+            coq(c["xs"]), coq(c["ys"]), coq(r["m"]), coq(r["b"]), coq(x0), coq(y0), coq(x1), coq(y1), two(r["two"]), coq(x1), coq(y1), coq(x0), coq(y0), two(r["two_rev"]))
     if k == "c09.circle3":
         rr = None if r.get("err") else Some((r["x"], r["y"], r["r"]))
         return "check_circle3 %s %s %s %s" % (coq(tuple(c["p0"])), coq(tuple(c["p1"])), coq(tuple(c["p2"])), coq(rr))
@@ -273,6 +276,16 @@ def oracle(c, r):
             return
         if not (C.close(r["m"], r["pc"][1], 1e-6) and C.close(r["b"], r["pc"][0], 1e-6)):
             yield ("line-vs-poly", "best_fit_line (m=%r, b=%r) differs from the degree-1 least-squares fit %r" % (r["m"], r["b"], r["pc"]))
+        # the line through two samples, whichever is given first
+        x0, y0, x1, y1 = c["xs"][0], c["ys"][0], c["xs"][-1], c["ys"][-1]
+        for name, v in (("try_from_points(first, last)", r["two"]), ("try_from_points(last, first)", r["two_rev"])):
+            if abs(x1 - x0) > 1e-11:
+                if v is None:
+                    yield ("line-two-points", "%s refused for distinct abscissae %r and %r" % (name, x0, x1))
+                elif max(abs(v[0] * x0 + v[1] - y0), abs(v[0] * x1 + v[1] - y1)) > 1e-9 * (1 + abs(v[0]) * max(abs(x0), abs(x1)) + abs(v[1])):
+                    yield ("line-two-points", "%s = (m %r, b %r) does not pass through (%r, %r) and (%r, %r)" % (name, v[0], v[1], x0, y0, x1, y1))
+            elif x1 == x0 and v is not None:
+                yield ("line-two-points", "%s answered (m %r, b %r) for equal abscissae" % (name, v[0], v[1]))
     elif k == "c09.circle3":
         pts = [c["p0"], c["p1"], c["p2"]]
         det = (pts[0][0] - pts[1][0]) * (pts[1][1] - pts[2][1]) - (pts[1][0] - pts[2][0]) * (pts[0][1] - pts[1][1])
